@@ -141,8 +141,11 @@ namespace Givaro {
     template<class T>
     inline void Array0<T>::push_back( const T& a )
     {
+        // `a` may refer to an Element of this array: reallocate() destroys and
+        // releases the old storage, so the value is taken before.
+        const T tmp(a);
         this->reallocate(_size+1);
-        this->back() = a;
+        this->back() = tmp;
     }
 
     // Logical destructor: identical to free
